@@ -213,3 +213,18 @@ Proof.
   split; [cbn; repeat split; reflexivity|]. split; [apply fedb_sound; vm_compute; reflexivity|]. split; [vm_compute; reflexivity|]. vm_compute. auto.
 Qed.
 Print Assumptions C03_edge_nonvacuous.
+
+(* ---------------------------------------------------------------------------------------------------------------
+   Where the network hypothesis of the edge theorems ("every published message is delivered": [fed]) is NOT kept by the
+   protocol itself - known finding C03-join-runahead.  A consumer that waits for one source re-sends its request, with
+   the same id, to EVERY source at every poll timeout (C06_waiting_consumer_asks), and a publisher treats every repeat
+   as credit: n repeats of one and the same request make it publish n frames, for every n.  In an independent join the
+   faster source therefore runs ahead of the slower one without any bound but the capacity of the PUB/SUB pipe. *)
+From OF Require Import Proto.Sender Proto.Sender_Runahead.
+Theorem C03_join_runahead_unbounded :
+  forall (t m : Z) (topic : str) (n : nat) (k : Z),
+    MSG_ID_SPECIAL < m -> m < k ->
+    let '(s', o) := srun (St t m k) (rounds t m topic k n) in
+    s' = St t m (k + Z.of_nat n) /\ pub_ids o = ids_from k n.
+Proof. intros t m topic n k H1 H2. exact (repeated_request_is_credit t m topic n k H1 H2). Qed.
+Print Assumptions C03_join_runahead_unbounded.
